@@ -744,6 +744,120 @@ def _stale_between(fn, def_stmt, name, v):
     return False
 
 
+def _rebound_between(fn, def_stmt, name, ops):
+    """is one of the plain names `ops` re-bound between the definition of
+    `name` and one of its uses (pre-order), or does a use sit in a loop (or
+    closure) the definition is outside of?  Conservative: True = maybe."""
+    order = {}
+    loops = {}
+
+    def number(node, chain):
+        order[id(node)] = len(order)
+        loops[id(node)] = chain
+        for ch in ast.iter_child_nodes(node):
+            if isinstance(ch, (ast.FunctionDef, ast.AsyncFunctionDef,
+                               ast.Lambda)):
+                for x in ast.walk(ch):
+                    order[id(x)] = len(order)
+                    loops[id(x)] = chain + ('closure',)
+                continue
+            number(ch, chain + ((id(node),) if isinstance(
+                node, (ast.For, ast.While)) and ch in node.body else ()))
+    number(fn, ())
+    d0 = max(order[id(x)] for x in ast.walk(def_stmt) if id(x) in order)
+    dchain = loops[id(def_stmt)]
+    uses = [x for x in ast.walk(fn) if isinstance(x, ast.Name) and
+            x.id == name and isinstance(x.ctx, ast.Load)]
+    last = 0
+    for u in uses:
+        if id(u) not in order or order[id(u)] < d0:
+            return True
+        if any(h not in dchain for h in loops[id(u)]):
+            return True
+        last = max(last, order[id(u)])
+    for x in ast.walk(fn):
+        if isinstance(x, ast.Name) and x.id in ops and \
+                isinstance(x.ctx, (ast.Store, ast.Del)):
+            o = order.get(id(x))
+            if o is None or d0 < o <= last:
+                return True
+    return False
+
+
+def _first_leaf(e):
+    if isinstance(e, ast.Name):
+        return e
+    if isinstance(e, ast.UnaryOp) and isinstance(e.op, ast.Not):
+        return _first_leaf(e.operand)
+    if isinstance(e, ast.BoolOp):
+        return _first_leaf(e.values[0])
+    if isinstance(e, ast.Compare):
+        return _first_leaf(e.left)
+    return None
+
+
+def inline_adjacent_tests(fn):
+    """`t = <any expression>` directly followed by `if <test that evaluates t
+    first>:` where t is bound once and read once: the expression moves into
+    the test (no statement lies between, so even an impure expression is
+    evaluated at the same point)"""
+    stores, loads = {}, {}
+    for x in walk(fn):
+        if isinstance(x, ast.Name):
+            if isinstance(x.ctx, ast.Load):
+                loads[x.id] = loads.get(x.id, 0) + 1
+            else:
+                stores[x.id] = stores.get(x.id, 0) + 1
+    changed = False
+
+    def do_block(stmts):
+        nonlocal changed
+        out = []
+        i = 0
+        while i < len(stmts):
+            s = stmts[i]
+            nxt = stmts[i + 1] if i + 1 < len(stmts) else None
+            if isinstance(s, ast.Assign) and len(s.targets) == 1 and \
+                    isinstance(s.targets[0], ast.Name) and \
+                    isinstance(nxt, ast.If):
+                n = s.targets[0].id
+                leaf = _first_leaf(nxt.test)
+                val = _strip_bool(s.value)
+                # a bare call result tested for truth (`ret = self.work_cb()`
+                # / `if not ret`) is an idiom of its own: kept as it is
+                if stores.get(n) == 1 and loads.get(n) == 1 and \
+                        leaf is not None and leaf.id == n and \
+                        isinstance(val, (ast.Compare, ast.BoolOp,
+                                         ast.UnaryOp)):
+
+                    class R(ast.NodeTransformer):
+                        def visit_Name(self, node):
+                            if node is leaf:
+                                return ast.copy_location(
+                                    copy.deepcopy(val), node)
+                            return node
+                    nxt.test = R().visit(nxt.test)
+                    changed = True
+                    i += 1
+                    continue
+            out.append(s)
+            i += 1
+        for s in out:
+            if isinstance(s, (ast.FunctionDef, ast.ClassDef,
+                              ast.AsyncFunctionDef)):
+                continue
+            for fld in ('body', 'orelse', 'finalbody'):
+                if isinstance(getattr(s, fld, None), list):
+                    setattr(s, fld, do_block(getattr(s, fld)))
+            for h in getattr(s, 'handlers', []) or []:
+                h.body = do_block(h.body)
+        return out
+    fn.body = do_block(fn.body)
+    if changed:
+        ast.fix_missing_locations(fn)
+    return changed
+
+
 def propagate(fn, facts=None):
     """substitute single-assignment locals holding a pure test expression or
     a `self.<attr>` path into their uses"""
@@ -775,9 +889,11 @@ def propagate(fn, facts=None):
         v = _strip_bool(lst[0].value)
         ok = False
         if _pure_test(v):
-            # operands must not be re-assigned in the function
+            # operands must not be re-assigned between the definition and
+            # the uses
             ops = {n.id for n in ast.walk(v) if isinstance(n, ast.Name)}
-            ok = all(stores.get(o, 0) == 0 for o in ops)
+            ok = all(stores.get(o, 0) == 0 for o in ops) or \
+                not _rebound_between(fn, lst[0], name, ops)
         elif _self_path(v):
             ok = unparse(v) not in attr_stores and not any(
                 a.startswith(unparse(v) + '.') or unparse(v).startswith(a + '.')
@@ -1167,6 +1283,8 @@ def expand_tables(prog, finfo):
                           orelse=orelse)
             ast.copy_location(node, at)
             orelse = [node]
+        if node is None:
+            return None
         for x in ast.walk(node):
             if isinstance(x, (ast.expr, ast.stmt)) and not hasattr(x, 'lineno'):
                 ast.copy_location(x, at)
@@ -1284,6 +1402,8 @@ def normalized_program(prog, desugar=True):
             break
     facts = package_facts(p2)
     for f in all_funcs():
+        if inline_adjacent_tests(f.node):
+            stats['adjacent_tests'] = stats.get('adjacent_tests', 0) + 1
         if propagate(f.node, facts):
             stats['propagated_functions'] += 1
     stats['inlined_calls'] = inl.count
